@@ -53,3 +53,10 @@ CHECKS["C08"] = {
     "text": "For every enumerated loop that the analysis reports parallelisable, no two distinct iterations (of one execution of that loop) touch the same memory location with at least one write on any enumerated input, except scalars written first in every iteration that touches them; the analysis must answer within 60 s of CPU time. quick 1.5k loops, thorough 2.9k loops, inputs n=0..5 x k x index-array contents.",
     "note": "Dynamic Bernstein conditions on bounded inputs (n<=5): a dependence that needs more than 5 iterations to manifest is not seen. False verdicts are never judged. Open findings: integer-division subscripts, conditionally written scalars. Fixed: non-termination with variables d_i/d1_i.",
 }
+
+CHECKS["C06"] = {
+    "level": "model_checking",
+    "technique": "exhaustive enumeration of array-assignment / intrinsic statements x lowering transformations x target nodes on the real PSyclone code; every accepted result executed by the E1 reference interpreter on all enumerated inputs and compared with the original's observable store",
+    "text": "425 (quick) / 657 (thorough) programs built from an array-section grammar (overlap, shift, stride, reversal, different lower bounds, constant indices) and an intrinsic grammar (ABS/SIGN/MIN/MAX, DOT_PRODUCT, MATMUL, SUM/PRODUCT/MINVAL/MAXVAL with dim/mask) in four embeddings; every lowering transformation is attempted on every matching node; inputs n=0..3 x scalar pairs (all 36 pairs of {-2..3} for scalar intrinsics).",
+    "note": "E1 is the trusted semantics (array assignment evaluates the RHS first; exact rationals). ABS/SIGN/MIN/MAX are only attempted on real scalar arguments (documented domain). Open findings: ArrayAssignment2Loops (overlap/stride), Matmul/DotProduct (lower bounds), reduction2loop dropping the assignment.",
+}
